@@ -754,6 +754,51 @@ fn header_split_points(n: usize, size: usize, total: usize) -> Vec<usize> {
     v.into_iter().filter(|&k| k <= total).collect()
 }
 
+/// Two clients, `n` broadcasts in one server frame: every client receives all of them in order.
+fn broadcast_to_two_clients(n: usize) -> Result<Option<u64>, String> {
+    let Some((mut server, mut clients, _conns)) = two_clients(false)? else { return Ok(None) };
+    for c in clients.iter_mut() {
+        c.world_mut().resource_mut::<Got>().0.clear();
+    }
+    let mut want = Vec::new();
+    for i in 0..n as u32 {
+        let p = payload(i, 8);
+        server.world_mut().send_event(ToClients { mode: SendMode::Broadcast, event: Down0(i, p.clone()) });
+        want.push((i, p));
+    }
+    server.update();
+    const SENTINEL: u32 = u32::MAX;
+    server.world_mut().send_event(ToClients { mode: SendMode::Broadcast, event: Down0(SENTINEL, Vec::new()) });
+    server.update();
+    for (k, rx) in clients.iter_mut().enumerate() {
+        let mut all: Vec<(u8, u32, Vec<u8>)> = Vec::new();
+        let mut seen = false;
+        for _ in 0..1200 {
+            rx.update();
+            all.append(&mut rx.world_mut().resource_mut::<Got>().0);
+            if all.iter().any(|m| m.1 == SENTINEL) {
+                seen = true;
+                rx.update();
+                all.append(&mut rx.world_mut().resource_mut::<Got>().0);
+                break;
+            }
+            std::thread::sleep(Duration::from_micros(300));
+        }
+        if !seen {
+            return Err(format!("STALL: client {k} received {} of {n} broadcasts and no sentinel", all.len()));
+        }
+        all.retain(|m| m.1 != SENTINEL);
+        let got: Vec<(u32, Vec<u8>)> = all.into_iter().map(|m| (m.1, m.2)).collect();
+        if got != want {
+            return Err(format!(
+                "{n} broadcasts on an ordered channel queued in one server frame for two clients: client {k} received them as {:?}",
+                got.iter().map(|g| g.0).collect::<Vec<_>>()
+            ));
+        }
+    }
+    Ok(Some(n as u64))
+}
+
 /// Two clients: the first one's link has a conditioner that drops everything, the second one's
 /// link has none - its `n` messages must arrive untouched.
 fn conditioner_on_the_other_link(n: usize) -> Result<Option<u64>, String> {
@@ -1033,6 +1078,39 @@ fn loopback_part(tier: Tier, out: &mut Outcome, bad: &mut Vec<Bad>) {
             }),
         }
     }
+    // many broadcasts to two clients in one server frame
+    for n in [2usize, 11, 30] {
+        let mut stalls = 0;
+        let mut result = None;
+        for _ in 0..3 {
+            match guarded(|| broadcast_to_two_clients(n)).unwrap_or_else(|(m, l)| Err(format!("panic: {m} ({l})"))) {
+                Ok(None) => continue,
+                Err(e) if e.starts_with("STALL") => {
+                    stalls += 1;
+                    result = Some(Err(e));
+                }
+                other => {
+                    result = Some(other);
+                    break;
+                }
+            }
+        }
+        runs += 1;
+        match result {
+            None => inconclusive += 1,
+            Some(Ok(Some(d))) => {
+                outcomes.insert(5_000_000 + d);
+            }
+            Some(Ok(None)) => unreachable!(),
+            Some(Err(e)) if e.starts_with("STALL") && stalls < 3 => inconclusive += 1,
+            Some(Err(e)) => bad.push(Bad {
+                oracle: if e.starts_with("bind") || e.starts_with("connect") { "socket" } else { "loopback-two-clients" },
+                case: format!("{n} broadcasts to two clients in one server frame"),
+                detail: e,
+                replay: json!({"kind": "loopback", "n": n, "size": 0, "upstream": false, "two_clients": true}),
+            }),
+        }
+    }
     // a conditioner configured on another client's link only
     for n in [1usize, 3, 12] {
         let mut stalls = 0;
@@ -1146,6 +1224,19 @@ pub fn replay(doc: &serde_json::Value) -> i32 {
             }
             println!("replay passes: no violation");
             return 0;
+        }
+        if doc["two_clients"].as_bool().unwrap_or(false) {
+            let n = doc["n"].as_u64().unwrap() as usize;
+            return match broadcast_to_two_clients(n) {
+                Ok(_) => {
+                    println!("replay passes: no violation");
+                    0
+                }
+                Err(e) => {
+                    println!("VIOLATION property=C17 replay=<file> oracle=loopback-two-clients :: {e}");
+                    1
+                }
+            };
         }
         if doc["reset"].as_bool().unwrap_or(false) {
             let n = doc["n"].as_u64().unwrap() as usize;
